@@ -820,6 +820,21 @@ class t2grid(object):
             if found: return nextblk, nextcon
             else: return None, None
 
+        def block_above(blk, last, grid):
+            """Finds block connected to the top of the specified block
+            (e.g. an atmosphere block). Connections leading downwards,
+            according to the sign of their gravity cosines (e.g. to
+            boundary condition blocks below the grid), are ignored."""
+            cons = [con for con in blk.connection_name if
+                    grid.connection[con].direction == 3]
+            if last: cons = [con for con in cons if last.name not in con]
+            for con in cons:
+                i = con_name_index(con, blk.name)
+                dircos = grid.connection[con].dircos
+                downward = bool(dircos) and ((dircos > 0.) == (i == 0))
+                if not downward: return grid.block[con[(i + 1) % 2]]
+            return None
+
         def block_direction_track(grid, start_block, dirn, max_volume = None):
             """Returns list of blocks and block sizes found by following specified
             direction from the starting block. Specify max_volume as a float to set
@@ -943,7 +958,7 @@ class t2grid(object):
                         mapping[geoblkname] = blk.name
                         next_blk,con = next_block_in_direction(blk, last3, 3, grid, max_volume)
                         if next_blk is None: # incomplete column
-                            atm_blk,con = next_block_in_direction(blk, last3, 3, grid)
+                            atm_blk = block_above(blk, last3, grid)
                             if atm_blk:
                                 if geo.atmosphere_type == 0:
                                     atmblockname = geo.block_name(geo.layerlist[0].name,
